@@ -13,6 +13,7 @@
 (*                               written                                   *)
 (*   PlayRet(r) / StopCall(r)    reader r's PLAY has completed / its PAUSE *)
 (*                               or Close is about to be called            *)
+(*   WRefused(k, id)             the write returned "packet too big"       *)
 (*   WErr(r)                     a write-queue-full (or other write) error *)
 (*                               was reported for reader r                 *)
 (*   Barrier(r)                  the harness stopped writing and waited    *)
@@ -31,8 +32,9 @@ VARIABLES nr, nm,        \* readers, (media, format) pairs
           last,          \* r -> k -> id of the last packet delivered
           streaming,     \* r -> between PlayRet and StopCall
           must,          \* r -> set of <<k, id>> still owed
-          lossy          \* r -> a write error was reported
-dvars == <<nr, nm, reliable, begun, last, streaming, must, lossy>>
+          lossy,         \* r -> a write error was reported
+          refused        \* <<k, id>> whose write returned "packet too big": nothing was transmitted
+dvars == <<nr, nm, reliable, begun, last, streaming, must, lossy, refused>>
 
 MaxR == 4
 MaxM == 4
@@ -41,17 +43,27 @@ K == 1..MaxM
 
 DInit == /\ nr = 0 /\ nm = 0 /\ reliable = [r \in R |-> FALSE] /\ begun = [k \in K |-> 0]
          /\ last = [r \in R |-> [k \in K |-> 0]] /\ streaming = [r \in R |-> FALSE]
-         /\ must = [r \in R |-> {}] /\ lossy = [r \in R |-> FALSE]
+         /\ must = [r \in R |-> {}] /\ lossy = [r \in R |-> FALSE] /\ refused = {}
 DReset(n, m, rel) ==
          /\ nr' = n /\ nm' = m /\ reliable' = [r \in R |-> IF r <= n THEN rel[r] ELSE FALSE]
          /\ begun' = [k \in K |-> 0] /\ last' = [r \in R |-> [k \in K |-> 0]]
          /\ streaming' = [r \in R |-> FALSE] /\ must' = [r \in R |-> {}] /\ lossy' = [r \in R |-> FALSE]
+         /\ refused' = {}
 
 WBeg(k, id) ==
   /\ k \in 1..nm /\ id = begun[k] + 1
   /\ begun' = [begun EXCEPT ![k] = id]
   /\ must' = [r \in R |-> IF r <= nr /\ streaming[r] /\ reliable[r] THEN must[r] \cup {<<k, id>>} ELSE must[r]]
-  /\ UNCHANGED <<nr, nm, reliable, last, streaming, lossy>>
+  /\ UNCHANGED <<nr, nm, reliable, last, streaming, lossy, refused>>
+
+\* the write of (k, id) returned an error because the packet exceeds what the stream can carry
+\* (C18: such a write transmits nothing): it is owed to nobody and must never be delivered
+WRefused(k, id) ==
+  /\ k \in 1..nm /\ id = begun[k]
+  /\ \A r \in 1..nr : last[r][k] < id
+  /\ refused' = refused \cup {<<k, id>>}
+  /\ must' = [r \in R |-> must[r] \ {<<k, id>>}]
+  /\ UNCHANGED <<nr, nm, reliable, begun, last, streaming, lossy>>
 
 WEnd(k, id) == k \in 1..nm /\ id <= begun[k] /\ UNCHANGED dvars
 
@@ -60,21 +72,22 @@ Dlv(r, k, id, same) ==
   /\ id >= 1 /\ id <= begun[k]                \* it was written, to this media and format
   /\ same                                      \* identical payload, marker, timestamp, seq, payload type
   /\ id > last[r][k]                           \* in the order written, at most once
+  /\ <<k, id>> \notin refused                  \* a refused write transmitted nothing
   /\ last' = [last EXCEPT ![r][k] = id]
   /\ must' = [must EXCEPT ![r] = @ \ {<<k, id>>}]
-  /\ UNCHANGED <<nr, nm, reliable, begun, streaming, lossy>>
+  /\ UNCHANGED <<nr, nm, reliable, begun, streaming, lossy, refused>>
 
 PlayRet(r) == r \in 1..nr /\ streaming' = [streaming EXCEPT ![r] = TRUE]
-              /\ UNCHANGED <<nr, nm, reliable, begun, last, must, lossy>>
+              /\ UNCHANGED <<nr, nm, reliable, begun, last, must, lossy, refused>>
 
 \* packets still owed when the reader stops are forgiven only if the harness checked a
 \* barrier first (it always does for reliable readers in the scenarios that check completeness)
 StopCall(r) == r \in 1..nr /\ streaming' = [streaming EXCEPT ![r] = FALSE]
                /\ must' = [must EXCEPT ![r] = {}]
-               /\ UNCHANGED <<nr, nm, reliable, begun, last, lossy>>
+               /\ UNCHANGED <<nr, nm, reliable, begun, last, lossy, refused>>
 
 WErr(r) == r \in 1..nr /\ lossy' = [lossy EXCEPT ![r] = TRUE]
-           /\ UNCHANGED <<nr, nm, reliable, begun, last, streaming, must>>
+           /\ UNCHANGED <<nr, nm, reliable, begun, last, streaming, must, refused>>
 
 \* nothing written after PLAY completed is missing unless a write error was reported
 Barrier(r) == r \in 1..nr /\ (must[r] = {} \/ lossy[r]) /\ UNCHANGED dvars
